@@ -108,7 +108,7 @@ def install_render_hooks():
                     r = f(self, ctx)
                     tree = getattr(_tls, "tree", None)
                     if tree is not None:
-                        tree.value_events.append((type(self).__name__, id(self.value), r, self.value))
+                        tree.value_events.append((type(self).__name__, id(self.value), r, self.value, self))
                     return r
                 w._pvm_wrapped = True
                 return w
